@@ -10,6 +10,7 @@ import (
 	"runtime"
 	"strconv"
 	"sync"
+	"sync/atomic"
 	"time"
 
 	"ergo.services/ergo/gen"
@@ -229,13 +230,79 @@ func (s *scheduler) install() {
 	s.mu.Lock()
 	s.active = true
 	s.mu.Unlock()
-	f := func(label string, obj any) { s.hook(label, obj) }
-	lib.VerifHook.Store(&f)
+	installBaseHook()
+	pool.reset()
+	currentSched.Store(s)
+}
+
+// ---- mailbox-message pool tracker ------------------------------------------------------------------
+// gen.TakeMailboxMessage / gen.ReleaseMailboxMessage report every message that leaves / re-enters the
+// pool (hooks "mbox.take" / "mbox.release"). A message released twice without having been taken in
+// between sits in the pool twice: two later senders fill the same struct, an accepted message is
+// overwritten or zeroed before it is handled (exactly-once delivery breaks, possibly much later and in
+// another process). The tracker is installed once for the whole harness run, so no take is missed.
+
+type poolTracker struct {
+	mu       sync.Mutex
+	released map[*gen.MailboxMessage]bool
+	doubles  int
+	first    string
+}
+
+var pool = &poolTracker{released: map[*gen.MailboxMessage]bool{}}
+
+func (t *poolTracker) note(label string, m *gen.MailboxMessage) {
+	t.mu.Lock()
+	if label == "mbox.take" {
+		delete(t.released, m)
+	} else {
+		if t.released[m] {
+			t.doubles++
+			if t.first == "" {
+				buf := make([]byte, 2048)
+				t.first = string(buf[:runtime.Stack(buf, false)])
+			}
+		}
+		t.released[m] = true
+	}
+	t.mu.Unlock()
+}
+
+func (t *poolTracker) reset() {
+	t.mu.Lock()
+	t.doubles, t.first = 0, ""
+	t.mu.Unlock()
+}
+
+func (t *poolTracker) report() (int, string) {
+	t.mu.Lock()
+	defer t.mu.Unlock()
+	return t.doubles, t.first
+}
+
+var currentSched atomic.Pointer[scheduler]
+var baseHookOnce sync.Once
+
+func installBaseHook() {
+	baseHookOnce.Do(func() {
+		f := func(label string, obj any) {
+			if label == "mbox.take" || label == "mbox.release" {
+				if m, ok := obj.(*gen.MailboxMessage); ok {
+					pool.note(label, m)
+				}
+				return
+			}
+			if s := currentSched.Load(); s != nil {
+				s.hook(label, obj)
+			}
+		}
+		lib.VerifHook.Store(&f)
+	})
 }
 
 // uninstall releases every parked thread and removes the hook
 func (s *scheduler) uninstall() {
-	lib.VerifHook.Store(nil)
+	currentSched.CompareAndSwap(s, nil)
 	s.mu.Lock()
 	s.active = false
 	for _, t := range s.threads {
